@@ -250,6 +250,16 @@ POOL = CORE + [{"term": T4, "value": "dog"}, {"term": T5, "value": ""}, {"term":
                {"term": T0, "value": "Dog"}, {"term": T0, "value": "dog "},
                {"term": T0, "value": "caf\u00e9"}, {"term": T0, "value": "cafe\u0301"}]
 SCORES = [0.0, 1.0, 0.25, 0.1, 1 / 3, 2.0 ** -30, 1 - 2.0 ** -53, 5e-324, 0.7]
+# follow-up 3: the binary64 -> binary32 store at its boundaries: exact ties between two binary32 neighbours (round to
+# even), one ulp of binary64 on either side of a tie, the smallest binary32 denormal and the tie below it, the
+# binary32 value of 0.1 (another binary64 number that is stored like 0.1)
+_T1 = 1 - 2.0 ** -25                      # tie between 1 - 2^-24 and 1.0 -> 1.0
+_T2 = 0.5 + 2.0 ** -25                    # tie between 0.5 and 0.5 + 2^-24 -> 0.5
+_T3 = 0.5 + 3 * 2.0 ** -25                # tie between 0.5 + 2^-24 and 0.5 + 2^-23 -> 0.5 + 2^-23
+SCORES_EDGE = [_T1, math.nextafter(_T1, 0), math.nextafter(_T1, 2), 1 - 2.0 ** -24, _T2, math.nextafter(_T2, 0),
+               math.nextafter(_T2, 1), _T3, math.nextafter(_T3, 0), math.nextafter(_T3, 1), 2.0 ** -149, 2.0 ** -150,
+               math.nextafter(2.0 ** -150, 1), 3 * 2.0 ** -150, 2.0 ** -126, 2.0 ** -126 - 2.0 ** -150,
+               struct.unpack("f", struct.pack("f", 0.1))[0], math.nextafter(0.1, 1), 1 - 2.0 ** -24 - 2.0 ** -26]
 
 
 def f32(x):
@@ -422,10 +432,32 @@ def _impl_prediction(inp):
     for p in inp["preds"]:
         s = float(Fraction(p["score"]))
         assert rat(f32(s)) == p["score32"], "stale score32 in input"
-        preds.append(data.PredictedTag(tag=mk_tag(p["tag"]), score=s))
+        preds.append(data.PredictedTag(tag=mk_tag(p["tag"]), score=_as_num(s, inp.get("num"))))
+        assert type(preds[-1].score) is float and preds[-1].score == s, "the score was not stored as the float given"
     r = _twice(encoding.prediction_encoding, preds, _encoder(inp), same=_arr_same, salt=_salt(inp), kw=ENC_SIG)
     assert r.ndim == 1 and r.dtype == np.float32
     return [rat(float(x)) for x in r]
+
+
+NUM_STYLES = ["float", "int", "bool", "np.float64", "np.float32", "np.int64"]
+
+
+def _as_num(x, style):
+    """the same number handed over as another numeric type, where that type holds it exactly (else as the float)"""
+    import numpy as np
+    if style in (None, "float"):
+        return x
+    if style == "int" and x == int(x):
+        return int(x)
+    if style == "bool" and x in (0.0, 1.0):
+        return bool(x)
+    if style == "np.float64":
+        return np.float64(x)
+    if style == "np.float32" and f32(x) == x:
+        return np.float32(x)
+    if style == "np.int64" and x == int(x):
+        return np.int64(int(x))
+    return x
 
 
 def _open_prediction(inp):
@@ -864,6 +896,58 @@ class _TableEncoder:
         raise NotImplementedError
 
 
+ATTR_KINDS = ["instance", "class", "property", "slots", "namedtuple", "dataclass"]
+
+
+def _encoder_flavour(kind, objs, table, n, np_int):
+    """the same user-defined encoder with `num_classes` / `encode` living in another kind of attribute: an instance
+    attribute, a class attribute, a property, __slots__, a namedtuple, a frozen dataclass (HISTORIES.md section 2:
+    attribute objects that are not plain namespaces)"""
+    core = _TableEncoder(objs, table, n, np_int)
+    if kind == "instance":
+        return core
+    if kind == "class":
+        return type("ClassAttrEncoder", (), {"num_classes": n, "encode": staticmethod(core.encode),
+                                             "decode": staticmethod(core.decode)})()
+    if kind == "property":
+        class PropEncoder:
+            @property
+            def num_classes(self):
+                return n
+
+            def encode(self, tag):
+                return core.encode(tag)
+
+            def decode(self, index):
+                return core.decode(index)
+        return PropEncoder()
+    if kind == "slots":
+        class SlotEncoder:
+            __slots__ = ("num_classes", "_core")
+
+            def __init__(self):
+                self.num_classes = n
+                self._core = core
+
+            def encode(self, tag):
+                return self._core.encode(tag)
+
+            def decode(self, index):
+                return self._core.decode(index)
+        return SlotEncoder()
+    if kind == "namedtuple":
+        import collections
+        return collections.namedtuple("TupleEncoder", ["num_classes", "encode", "decode"])(n, core.encode, core.decode)
+    import dataclasses
+
+    @dataclasses.dataclass(frozen=True)
+    class DataEncoder:
+        num_classes: int
+        encode: object
+        decode: object
+    return DataEncoder(n, core.encode, core.decode)
+
+
 def _g_setup(inp):
     objs = [mk_tag(t) for t in GPOOL]
     enc = _TableEncoder(objs, inp["enc"], inp["n"], bool(inp.get("np")))
@@ -872,6 +956,8 @@ def _g_setup(inp):
         from soundevent.evaluation import encoding
         cls = type("ProtoEncoder", (_TableEncoder, encoding.Encoder), {})
         enc = cls(objs, inp["enc"], inp["n"], bool(inp.get("np")))
+    elif inp.get("attr"):
+        enc = _encoder_flavour(inp["attr"], objs, inp["enc"], inp["n"], bool(inp.get("np")))
     return objs, enc
 
 
@@ -1238,7 +1324,7 @@ for _n in ("classification", "multilabel", "prediction"):
 OPS["encoder"].to_model = lambda inp: {k: v for k, v in inp.items() if k != "paths"}
 
 # review additions
-_G = lambda inp: {k: v for k, v in inp.items() if k not in ("np", "proto")}  # noqa: E731
+_G = lambda inp: {k: v for k, v in inp.items() if k not in ("np", "proto", "attr")}  # noqa: E731
 OPS.update({
     # the three encodings behind a user-defined encoder (any table tag -> index in range): determined
     "classification_g": Op("classification_g", _impl_classification_g, to_model=_G,
@@ -1836,6 +1922,18 @@ def _eq_hash_cases(ctx):
     # cross-class pairs: same field values, different classes
     for c1, c2 in itertools.permutations(["Tag", "Feature", "SoundEvent", "Note"], 2):
         cases.append({"a": pools[c1][0][1], "b": pools[c2][0][1]})
+    # follow-up 3: one uuid shared *across* kinds (a prediction carrying the uuid of an annotation, a note that of a
+    # sound event): the hashes may collide, the objects must stay unequal and apart in sets and dicts
+    shared = str(_uuid.UUID(int=777))
+    uu = ["Note", "SoundEvent", "SoundEventAnnotation", "SoundEventPrediction", "ClipPrediction"]
+    twins = {}
+    for c in uu:
+        kw = B[c][0]()
+        kw["uuid"] = shared
+        twins[c] = walk(_construct(c, kw))
+    for c1, c2 in itertools.permutations(uu, 2):
+        cases.append({"a": twins[c1], "b": twins[c2]})
+    ctx.tally("eq_hash one uuid across kinds", len(uu) * (len(uu) - 1))
     return cases
 
 
@@ -2098,6 +2196,72 @@ def _hand_written_hash(c):
 
 
 
+
+# ------------------------------------------------------------------ follow-up 3: sizes, extras in vocabularies
+def _big_pool(n):
+    """n distinct tags: a few terms (some sharing the name, some the label) x many values"""
+    terms = [T0, T1, T2, T4, T5]
+    return [{"term": terms[i % len(terms)], "value": "v%d" % (i // len(terms))} for i in range(n)]
+
+
+def _stage_sizes(ctx):
+    """sizes at which an implementation could switch strategy (HISTORIES.md section 4): vocabularies and tag lists of
+    15..17, 255..257, 1023..1025 and more elements, repeats beyond those lengths"""
+    rng = ctx.rng
+    big = _big_pool(1300)
+    sizes = [15, 16, 17, 255, 256, 257, 1023, 1024, 1025] + ([1300] if ctx.thorough() else [])
+    enc_cases, tag_cases, pred_cases = [], [], []
+    for n in sizes:
+        vocab = rng.sample(big[:n + 40], n)
+        probes = [vocab[0], vocab[-1], vocab[n // 2], big[n + 41], {"term": T3, "value": "v0"}] + rng.sample(big, 3)
+        enc_cases.append({"vocab": vocab, "tags": probes})
+        # a list as long as the threshold with repeats and out-of-vocabulary members; the first hit late in the list
+        for m in (n, 17):
+            oov = [t for t in big[n + 40:n + 60]]
+            tags = [rng.choice(oov) for _ in range(m - 2)] + [vocab[rng.randrange(n)], vocab[rng.randrange(n)]]
+            tag_cases.append({"vocab": vocab, "tags": tags})
+            mixed = [rng.choice(vocab + oov) for _ in range(m)]
+            tag_cases.append({"vocab": vocab[:17], "tags": mixed + mixed[:3]})
+            pred_cases.append({"vocab": vocab[:max(1, n // 4)], "preds": [pred_desc(t, rng.choice(SCORES)) for t in mixed]})
+    ctx.run_cases(OPS["encoder"], enc_cases)
+    for name in ("classification", "multilabel"):
+        ctx.run_cases(OPS[name], tag_cases)
+    ctx.run_cases(OPS["prediction"], pred_cases)
+    ctx.tally("size cases (vocabulary / list lengths " + ",".join(map(str, sizes)) + ")", len(enc_cases) + 2 * len(tag_cases)
+              + len(pred_cases))
+    # find_tag / find_feature over long lists: the match at the very end, beyond every threshold
+    fc = []
+    for n in (17, 257, 1025):
+        seq = [big[i] for i in range(5, n + 4)] + [{"term": T3, "value": "last"}]
+        fc.append({"tags": seq, "term": T3, "call": "pos"})
+        fc.append({"tags": seq, "label": "colour", "default": CORE[0], "call": "kw_rev"})
+        fc.append({"tags": seq + seq[:2], "term": T6, "default": CORE[3]})
+    ctx.run_cases(OPS["find_tag"], fc)
+
+
+T7 = term_desc("species", "dwc:species", extra={"note": "n", "other": "o"})
+T8 = term_desc("species", "dwc:species", extra={"note": "o", "other": "n"})       # the same keys, the values swapped
+T9 = term_desc("species", "dwc:species", extra={"note": "n", "other": "o", "status": "s"})
+XPOOL = [{"term": T0, "value": "dog"}, {"term": T4, "value": "dog"}, {"term": T7, "value": "dog"},
+         {"term": T8, "value": "dog"}, {"term": T9, "value": "dog"}, {"term": T7, "value": "cat"}]
+
+
+def _stage_extras(ctx):
+    """vocabularies over tags whose terms carry 0..3 extra attributes (the same keys with other values, a subset of
+    the keys): every probe also through every construction path and every order of its extras"""
+    rng = ctx.rng
+    ctx.run_cases(OPS["encoder"], ({"vocab": v, "tags": XPOOL, "paths": "all"} for v in _vocabs(XPOOL, 3)))
+    vocs = list(_vocabs(XPOOL, 2)) + [rng.sample(XPOOL, 4) for _ in range(10)] + [XPOOL]
+    lists = list(_lists(XPOOL, 2))
+    cases = [{"vocab": v, "tags": t, "xk": 1 + (i % 5)} for i, (v, t) in enumerate((v, t) for v in vocs for t in lists)]
+    for name in ("classification", "multilabel"):
+        ctx.run_cases(OPS[name], cases)
+    ctx.exhaustive["extras in vocabularies"] = (f"encoder: all ordered vocabularies of <= 3 of {len(XPOOL)} tags over terms with "
+                                                "0..3 extras, every probe through 9 construction recipes; classification / "
+                                                f"multilabel: {len(vocs)} vocabularies x {len(lists)} lists, the extras of the "
+                                                "probes in each of the 5 non-sorted orders")
+
+
 # ------------------------------------------------------------------ follow-up 3: documented signatures (tie 1)
 def _stage_signatures(ctx):
     """the parameter names and order of the public functions, re-extracted with inspect.signature, against the
@@ -2186,6 +2350,8 @@ def run(ctx):
     ctx.stage("eq-hash", _stage_eq_hash, ctx)
     ctx.stage("construction-paths", _stage_paths, ctx)
     ctx.stage("histories", _stage_histories, ctx)
+    ctx.stage("sizes", _stage_sizes, ctx)
+    ctx.stage("extras", _stage_extras, ctx)
     ctx.stage("generic-encoders", _stage_generic, ctx)
     ctx.stage("find", _stage_find, ctx)
     ctx.stage("init", _stage_init, ctx)
@@ -2234,10 +2400,31 @@ def _stage_prediction(ctx):
         ctx.note(f"{_OPEN_DIFF[0]} inputs on which one vocabulary tag is predicted with two different scores gave a vector "
                  "other than the model's last-write-wins one (left open by the property; not a failure)")
     # every score of the pool alone (float32 store of each value)
-    ctx.run_cases(OPS["prediction"], ({"vocab": [CORE[0], CORE[1]], "preds": [pred_desc(CORE[1], s)]} for s in SCORES))
+    ctx.run_cases(OPS["prediction"], ({"vocab": [CORE[0], CORE[1]], "preds": [pred_desc(CORE[1], s)]}
+                                      for s in SCORES + SCORES_EDGE))
     import numpy as np
-    for s in SCORES:
+    for s in SCORES + SCORES_EDGE:
         ctx.contract("float32-store", float(np.float32(s)) == f32(s), {"score": rat(s)}, rat(float(np.float32(s))))
+    # follow-up 3: the store at its rounding boundaries (ties of binary32, denormals), two predictions of one tag whose
+    # scores differ in binary64 but are stored alike (the entry is then determined), the score handed over as an int /
+    # bool / numpy scalar where that type holds it exactly
+    edge = []
+    for s in SCORES_EDGE:
+        for t in (CORE[0], CORE[1]):
+            edge.append({"vocab": [CORE[1], CORE[0]], "preds": [pred_desc(t, s), pred_desc(CORE[3], 1.0)]})
+    for a, b in [(0.1, f32(0.1)), (_T1, 1.0), (_T2, 0.5), (2.0 ** -150, 0.0), (math.nextafter(_T1, 0), 1 - 2.0 ** -24)]:
+        edge.append({"vocab": [CORE[0]], "preds": [pred_desc(CORE[0], a), pred_desc(CORE[0], b)]})
+        edge.append({"vocab": [CORE[0]], "preds": [pred_desc(CORE[0], b), pred_desc(CORE[1], 0.7), pred_desc(CORE[0], a)]})
+    ctx.run_cases(OPS["prediction"], edge)
+    nums = []
+    for i in range(ctx.budget(400, 4000)):
+        c = _random_case(rng, "preds")
+        sc = rng.choice([0.0, 1.0, 0.25, 0.5, 0.75])
+        c["preds"] = [pred_desc(p["tag"], sc if rng.random() < 0.7 else float(Fraction(p["score"]))) for p in c["preds"]]
+        nums.append({**c, "num": NUM_STYLES[i % len(NUM_STYLES)]})
+    ctx.run_cases(OPS["prediction"], nums)
+    for st in NUM_STYLES:
+        ctx.tally("prediction score given as " + st, sum(1 for c in nums if c["num"] == st))
 
 
 def _stage_tag_eq(ctx):
@@ -2298,8 +2485,8 @@ def _stage_generic(ctx):
         tbl = [rng.choice([None] + list(range(K))) for _ in range(4)]
         tags = [rng.randrange(4) for _ in range(rng.choice([0, 1, 2, 4, 7]))]
         extra.append({"n": K, "enc": tbl, "tags": tags})
-    flags = [{}, {"np": True}, {"proto": True}]
-    allc = [{**c, **flags[i % 3]} for i, c in enumerate(cases + extra)]
+    flags = [{}, {"np": True}, {"proto": True}] + [{"attr": k} for k in ATTR_KINDS] + [{"attr": "slots", "np": True}]
+    allc = [{**c, **flags[i % len(flags)]} for i, c in enumerate(cases + extra)]
     for name in ("classification_g", "multilabel_g"):
         ctx.run_cases(OPS[name], allc)
     ctx.exhaustive["generic encoders"] = (f"every table of {P} tags into {{skip, 0..K-1}} for K <= 2 x {len(lists)} tag lists "
@@ -2318,7 +2505,7 @@ def _stage_generic(ctx):
         tbl = [rng.choice([None] + list(range(K))) for _ in range(4)]
         preds = [{"i": rng.randrange(4), **_sc(rng.choice(SCORES))} for _ in range(rng.choice([0, 1, 2, 3, 6]))]
         pc.append({"n": K, "enc": tbl, "preds": preds})
-    ctx.run_cases(OPS["prediction_g"], [{**c, **flags[i % 3]} for i, c in enumerate(pc)])
+    ctx.run_cases(OPS["prediction_g"], [{**c, **flags[i % len(flags)]} for i, c in enumerate(pc)])
     # indices outside [0, n): the index rule of the store (numpy) behind the Protocol
     oor = []
     for K in (0, 1, 2, 3):
@@ -2362,25 +2549,40 @@ def _sc(s):
     return {"score": rat(s), "score32": rat(f32(s))}
 
 
+def _find_product(key, pool, terms, labels, defaults, rng, maxlen):
+    """{no term, terms} x {no label, labels} x {no default, None, defaults} x every list of length <= maxlen, each case
+    with one of the call styles (every style for the short lists)"""
+    cases = []
+    lists = [list(c) for n in range(maxlen + 1) for c in itertools.product(range(len(pool)), repeat=n)]
+    i = 0
+    for idx in lists:
+        seq = [pool[j] for j in idx]
+        for term in [_DROP] + terms:
+            for label in [_DROP] + labels:
+                for default in [_DROP, None] + defaults:
+                    c = {key: seq}
+                    if term is not _DROP:
+                        c["term"] = term
+                    if label is not _DROP:
+                        c["label"] = label
+                    if default is not _DROP:
+                        c["default"] = default
+                    styles = CALL_STYLES if len(seq) <= 1 else [CALL_STYLES[i % len(CALL_STYLES)]]
+                    i += 1
+                    for st in styles:
+                        cases.append({**c, "call": st})
+    return cases, len(lists)
+
+
 def _stage_find(ctx):
     rng = ctx.rng
     pool = POOL[:6]
     terms = [T0, T1, T2, T4, T5]
     labels = ["species", "Species", "colour", "", "zz"]
-    cases = []
-    lists = [list(c) for n in range(4) for c in itertools.product(range(4), repeat=n)]
-    for tags in lists:
-        tl = [pool[i] for i in tags]
-        for term in [None] + terms[:3]:
-            for label in [None, "species", "Species"]:
-                c = {"tags": tl}
-                if term is not None:
-                    c["term"] = term
-                if label is not None:
-                    c["label"] = label
-                cases.append(c)
+    cases, nl = _find_product("tags", pool[:4], terms[:3] + [None], ["species", "Species", None], [pool[0], pool[5]], rng,
+                              3 if ctx.thorough() else 2)
     for _ in range(ctx.budget(600, 8000)):
-        c = {"tags": [rng.choice(POOL) for _ in range(rng.choice([0, 1, 2, 3, 5, 8]))]}
+        c = {"tags": [rng.choice(POOL) for _ in range(rng.choice([0, 1, 2, 3, 5, 8, 17, 40]))], "call": rng.choice(CALL_STYLES)}
         if rng.random() < 0.6:
             c["term"] = rng.choice(terms + [None])
         if rng.random() < 0.6:
@@ -2389,13 +2591,17 @@ def _stage_find(ctx):
             c["default"] = rng.choice(POOL + [None])
         cases.append(c)
     ctx.run_cases(OPS["find_tag"], cases)
-    ctx.exhaustive["find_tag"] = (f"{len(lists)} tag lists (length <= 3 over 4 pool tags) x {{no term, 3 terms}} x "
-                                  "{no label, 2 labels}; random longer ones with defaults")
-    fcases = []
+    ctx.exhaustive["find_tag"] = (f"{nl} tag lists (length <= {3 if ctx.thorough() else 2} over 4 pool tags) x {{no term, 3 terms, "
+                                  "None}} x {no label, 2 labels, None} x {no default, None, a tag of the list, another tag}, "
+                                  "called by keyword (both orders), positionally, mixed; random longer ones")
+    # the sibling, through the same product (features over name-sharing / label-sharing terms)
+    fpool = [{"term": t, "value": rat(v)} for t, v in ((T0, 0.0), (T1, 1.0), (T2, -1.5), (T0, 1.0))]
+    fcases, nf = _find_product("features", fpool, terms[:3] + [None], ["species", "Species", None],
+                               [fpool[0], {"term": T5, "value": rat(2.0)}], rng, 3 if ctx.thorough() else 2)
     vals = [0.0, 1.0, -1.5]
     for _ in range(ctx.budget(600, 8000)):
         c = {"features": [{"term": rng.choice(terms), "value": rat(rng.choice(vals))}
-                          for _ in range(rng.choice([0, 1, 2, 3, 5]))]}
+                          for _ in range(rng.choice([0, 1, 2, 3, 5, 17]))], "call": rng.choice(CALL_STYLES)}
         if rng.random() < 0.6:
             c["term"] = rng.choice(terms + [None])
         if rng.random() < 0.6:
@@ -2406,6 +2612,9 @@ def _stage_find(ctx):
     fcases.append({"features": []})
     fcases.append({"features": [{"term": T0, "value": "0"}], "label": None, "term": None})
     ctx.run_cases(OPS["find_feature"], fcases)
+    ctx.exhaustive["find_feature"] = f"the same product as find_tag over {nf} feature lists"
+    for st in CALL_STYLES:
+        ctx.tally("find call style " + st, sum(1 for c in cases + fcases if c.get("call") == st))
 
 
 KEYS = ["animal", "", "a:b", "soundevent:animal", "Animal", " ", "ünï", "species"]
